@@ -1,6 +1,6 @@
 (** C17 - experiment lifecycle is monotone; transport retries are bounded.
     Property theorems only.  [Run.GenLife] is regenerated from /repo on every run by gen/backend.py
-    (status-string chain, is_terminal list, guards/conditions of query_status, results,
+    (status-string chain, is_terminal list, guards/conditions of query_status, from_json, results,
     wait_for_results and _process_response, retry-loop bound/comparison/increment/final test), so
     the statements below are about the tables the code contains now.  The control skeleton of the
     model (Qib.Backend.LifeModel) is tied to the code by the correspondence run of checks/C17.py.
@@ -41,6 +41,7 @@ Proof.
   - intros []; reflexivity.
   - intros []; reflexivity.
   - intros []; reflexivity.
+  - intros []; reflexivity.
   - intros [] []; reflexivity.
   - intros []; reflexivity.
   - intros [] []; reflexivity.
@@ -77,9 +78,9 @@ Theorem C17_status_follows_last_reply :
     /\ s_job sf = option_map r_job (s_last sf).
 Proof.
   intros evs outs tr sf rest E.
-  assert (HI : Inv sf) by (eapply (run_inv gen_tables _ gen_tables_ok); [apply (inv_init gen_tables _ gen_tables_ok)|exact E]).
-  split; [|apply (inv_job sf HI)].
-  rewrite (inv_status sf HI). destruct (s_last sf); [rewrite gen_status_spec|]; reflexivity.
+  assert (HI : Inv gen_tables sf) by (eapply (run_inv gen_tables _ gen_tables_ok); [apply (inv_init gen_tables _ gen_tables_ok)|exact E]).
+  split; [|apply (inv_job gen_tables sf HI)].
+  rewrite (inv_status gen_tables sf HI). destruct (s_last sf); [rewrite gen_status_spec|]; reflexivity.
 Qed.
 Print Assumptions C17_status_follows_last_reply.
 
@@ -113,8 +114,12 @@ Print Assumptions C17_lifecycle_monotone.
 (** 4. results() / wait_for_results() (run in one piece, or resumed at any await point after any
     interleaved client events) return only in a terminal status; they return the payload of the
     server reply that reported 'finished' when the status is DONE, and None otherwise.
-    Guard: the history in which submit_experiment itself returns an experiment that is already DONE
-    (the *submission* was answered 'finished') is excluded - see C17_results_refuted. *)
+    Guard ([reach_g]): the history in which submit_experiment itself returns an experiment that is
+    already DONE (the *submission* was answered 'finished') is excluded - see C17_results_refuted -
+    unless the source records the results of a 'finished' reply in from_json, i.e. for the
+    reply to the submission as well ([gen_store_fj DONE = true], the code with
+    proposed_fixes/C17-results-of-finished-submission.diff): then [reach_g] excludes nothing and the
+    statement is the unguarded one (C17_results_exactly_when_done_unguarded). *)
 Theorem C17_results_exactly_when_done :
   forall s outs e x s' outs',
     reach_g gen_tables s outs -> step gen_tables s e outs = (OResults x, s', outs') ->
@@ -130,10 +135,37 @@ Proof.
 Qed.
 Print Assumptions C17_results_exactly_when_done.
 
+(** what the guard is, spelled out: a state reached from a fresh experiment by any events against
+    any outcomes, where no submission returned an experiment that is already DONE *)
+Theorem C17_guard_meaning :
+  forall evs outs tr sf rest,
+    run gen_tables (init_st gen_tables) evs outs = (tr, sf, rest) ->
+    (gen_store_fj DONE = true \/ forall st0 n, ~ In (OSubmitted DONE, st0, n) tr) ->
+    reach_g gen_tables sf rest.
+Proof.
+  intros evs outs tr sf rest E Hn.
+  exact (proj1 (run_results gen_tables _ gen_tables_ok evs _ _ _ _ _ (reachg_init gen_tables outs) E Hn)).
+Qed.
+Print Assumptions C17_guard_meaning.
+
+Theorem C17_results_exactly_when_done_unguarded :
+  gen_store_fj DONE = true ->
+  forall s outs e x s' outs',
+    reach gen_tables s outs -> step gen_tables s e outs = (OResults x, s', outs') ->
+    gen_is_terminal (s_status s') = true /\
+    (s_status s' <> DONE -> x = None) /\
+    (s_status s' = DONE ->
+       exists r, s_last s' = Some r /\ gen_from_wmi_status (r_status r) = DONE /\ x = Some (r_payload r)).
+Proof.
+  intros F s outs e x s' outs' Hr. apply C17_results_exactly_when_done.
+  apply (reach_g_all gen_tables); [exact F|exact Hr].
+Qed.
+Print Assumptions C17_results_exactly_when_done_unguarded.
+
 Theorem C17_results_on_traces :
   forall evs outs tr sf rest,
     run gen_tables (init_st gen_tables) evs outs = (tr, sf, rest) ->
-    (forall st0 n, ~ In (OSubmitted DONE, st0, n) tr) ->
+    (gen_store_fj DONE = true \/ forall st0 n, ~ In (OSubmitted DONE, st0, n) tr) ->
     Forall (fun en : tentry => forall x, fst (fst en) = OResults x ->
               gen_is_terminal (snd (fst en)) = true /\
               (snd (fst en) <> DONE -> x = None) /\ (snd (fst en) = DONE -> x <> None)) tr.
@@ -158,17 +190,37 @@ Proof.
 Qed.
 Print Assumptions C17_results_sound.
 
-(** the excluded history is a real defect of the code: submission answered 'finished' => DONE for
-    ever with results() = None and no request that could fetch them *)
+(** the excluded history is a real defect of the code in which only query_status records results
+    ([results_in_query_status_only]: the regenerated tables with exactly that choice): submission
+    answered 'finished' => DONE for ever with results() = None and no request that could fetch them.
+    With the results recorded in from_json ([results_in_from_json]) the same history returns them. *)
+Definition with_store (q fj : status -> bool) : tables :=
+  {| tb_initial := tb_initial gen_tables; tb_status := tb_status gen_tables; tb_terminal := tb_terminal gen_tables;
+     tb_guard := tb_guard gen_tables; tb_store := q; tb_store_fj := fj;
+     tb_fast_b := tb_fast_b gen_tables; tb_tail_b := tb_tail_b gen_tables;
+     tb_fast_a := tb_fast_a gen_tables; tb_tail_a := tb_tail_a gen_tables;
+     tb_submit_raises := tb_submit_raises gen_tables; tb_init := tb_init gen_tables; tb_cond := tb_cond gen_tables;
+     tb_incr := tb_incr gen_tables; tb_final := tb_final gen_tables |}.
+Definition results_in_query_status_only := with_store (fun s => status_eqb s DONE) (fun _ => false).
+Definition results_in_from_json := with_store (fun _ => false) (fun s => status_eqb s DONE).
+
 Theorem C17_results_refuted :
   exists outs tr sf rest,
-    run gen_tables (init_st gen_tables) [Submit; Results; Await] outs = (tr, sf, rest) /\
+    run results_in_query_status_only (init_st results_in_query_status_only) [Submit; Results; Await] outs = (tr, sf, rest) /\
     tr = [(OSubmitted DONE, DONE, 1%nat); (OResults None, DONE, 1%nat); (OResults None, DONE, 1%nat)].
 Proof.
   exists [TOk {| r_status := c_finished; r_job := 7; r_payload := 42 |}].
   eexists. eexists. eexists. split; [vm_compute; reflexivity|reflexivity].
 Qed.
 Print Assumptions C17_results_refuted.
+
+Theorem C17_results_repaired_instance :
+  exists tr sf rest,
+    run results_in_from_json (init_st results_in_from_json) [Submit; Results; Await]
+        [TOk {| r_status := c_finished; r_job := 7; r_payload := 42 |}] = (tr, sf, rest) /\
+    tr = [(OSubmitted DONE, DONE, 1%nat); (OResults (Some 42), DONE, 1%nat); (OResults (Some 42), DONE, 1%nat)].
+Proof. eexists. eexists. eexists. split; [vm_compute; reflexivity|reflexivity]. Qed.
+Print Assumptions C17_results_repaired_instance.
 
 (** 5. querying before submission is refused: no request, nothing consumed, state unchanged *)
 Theorem C17_query_before_submission_refused :
